@@ -14,7 +14,7 @@ from . import c18
 ID = 'C10'
 WORLD = 'gdb'
 LEVEL = 'exploration'
-RUNS = {'quick': 9600}
+RUNS = {'quick': 6400}
 BUDGET_S = {'thorough': 600}
 RULE = ('one evaluation = one simulated GDB session: messages on 1-3 connections from 1-3 inferior threads interleaved by the seeded '
         'scheduler with user commands typed whenever the inferior is halted (by a matching message, or by a user interrupt): '
@@ -103,9 +103,29 @@ def generate(seed, tier, index):
         elif r < 0.8:
             out.append(['cmd', 'continue', {'t': 'plain-continue'}])
         else:
-            out.append(['cmd', rng.choice(['wl xyz', 'wl', 'wl  ', 'wl 42', 'wlhelp nosuch', 'wl l ~ x']), {'t': 'other'}])
+            from . import c18
+            junk = c18.gen_command(rng, voc).replace('\n', ' ').replace('\r', ' ')[:300]
+            # (anything that could resolve to resume/quit is left to the scripted resume/quit commands above)
+            if c18_could_end(junk):
+                junk = 'xyz'
+            out.append(['cmd', rng.choice(['wl xyz', 'wl', 'wl  ', 'wl 42', 'wlhelp nosuch', 'wl l ~ x', 'wl ' + junk, 'wl ' + junk]), {'t': 'other'}])
     intents = S.insert_commands(rng, traffic, out)
     return {'prop': ID, 'seed': seed, 'config': cfg, 'intents': intents}
+
+
+def c18_could_end(text):
+    t = text
+    for _ in range(50):
+        if ends_prompt(t):
+            return True
+        parts = t.strip().split(None, 1)
+        if not parts or parts[0] not in ('w', 'wl') or len(parts) < 2:
+            break
+        t = parts[1]
+    first = t.strip().split(None, 1)[0] if t.strip() else ''
+    if first.startswith('wl'):
+        first = first[2:]
+    return bool(first) and ('resume'.startswith(first) or 'quit'.startswith(first)) or '\x1b' in text
 
 
 def generate_prompt(seed, rng):
